@@ -7,6 +7,10 @@ CHECK = {
     "parts": [
         {"name": "conc", "pkg": "verifharness/prop/c18", "run": "^TestVerif_C18_Conc$", "race": True,
          "timeout": {"quick": 900, "thorough": 7200}},
+        # same workload with a writer that is not an io.Closer (the library's coloured-console path for warn/error);
+        # needs its own process: once a Closer was installed the library never takes that path again
+        {"name": "plain", "pkg": "verifharness/prop/c18", "run": "^TestVerif_C18_Conc$", "race": True, "env": {"VERIF_C18_PLAIN": "1"},
+         "timeout": {"quick": 900, "thorough": 7200}},
     ],
     "assumptions": [
         "info-level calls are discarded by design (DESIGN.md 4.1): zero Writes accepted for them, at most one",
